@@ -129,3 +129,117 @@ Proof.
     + crunch; solve_effect.
     + destruct pc; simpl in H; crunch; solve_effect.
 Qed.
+
+(** * the invariant over the whole pool *)
+Lemma nodup_app_iff : forall (a b : list Z), NoDup (a ++ b) <-> NoDup a /\ NoDup b /\ (forall x, In x a -> ~ In x b).
+Proof.
+  induction a; simpl; intros.
+  - split; [intros; repeat split; auto; constructor | tauto].
+  - split.
+    + intros H. inversion H; subst. apply IHa in H3. destruct H3 as (Ha & Hb & Hd).
+      repeat split; auto.
+      * constructor; auto. intro. apply H2. apply in_or_app. auto.
+      * intros x [->|Hx]; auto. intro. apply H2. apply in_or_app. auto.
+    + intros (Ha & Hb & Hd). inversion Ha; subst. constructor.
+      * intro Hi. apply in_app_or in Hi. destruct Hi; auto. apply (Hd a); auto.
+      * apply IHa. repeat split; auto.
+Qed.
+
+Lemma nodup_flat_map_suffix : forall A (p g : A -> list Z) l,
+  NoDup (flat_map (fun a => p a ++ g a) l) -> NoDup (flat_map g l).
+Proof.
+  induction l; simpl; intros H; [constructor|].
+  rewrite <- app_assoc in H. apply NoDup_app_remove_l in H.
+  apply nodup_app_iff in H. destruct H as (Hg & Hr & Hd).
+  apply nodup_app_iff. repeat split; auto.
+  intros x Hx Hi. apply (Hd x Hx).
+  apply in_flat_map in Hi. destruct Hi as (b & Hb & Hxb).
+  apply in_flat_map. exists b. split; auto. apply in_or_app. auto.
+Qed.
+
+Record ids_inv (lon loe : Z) (c : gcfg) : Prop := {
+  ii_nd : NoDup (flat_map (ids_of is_cnode) (pool c));
+  ii_nb : forall x, In x (flat_map (ids_of is_cnode) (pool c)) -> lon <= x < g_next_node (sh c);
+  ii_ed : NoDup (flat_map (ids_of is_cedge) (pool c));
+  ii_eb : forall x, In x (flat_map (ids_of is_cedge) (pool c)) -> loe <= x < g_next_edge (sh c);
+  ii_na : forall th x, In th (pool c) -> In x (acked is_cnode (t_out th)) -> In x (ndom (sh c));
+  ii_ea : forall th x, In th (pool c) -> In x (acked is_cedge (t_out th)) -> In x (edom (sh c));
+  ii_ei : forall th x, In th (pool c) -> In x (einserted th) -> In x (edom (sh c));
+  ii_lo : lon <= g_next_node (sh c) /\ loe <= g_next_edge (sh c)
+}.
+
+Lemma ids_inv_init : forall g0 progs, ids_inv (g_next_node g0) (g_next_edge g0) (ginit g0 progs).
+Proof.
+  intros.
+  assert (E : forall sel, flat_map (ids_of sel) (pool (ginit g0 progs)) = []).
+  { intros. unfold ginit, init. simpl. induction progs as [|p ps IH]; simpl; auto.
+    rewrite IH. unfold ids_of. rewrite inflight_load, t_out_load. reflexivity. }
+  assert (T : forall th, In th (pool (ginit g0 progs)) -> t_out th = [] /\ einserted th = []).
+  { unfold ginit, init. simpl. intros th Hth. apply in_map_iff in Hth. destruct Hth as (p & <- & _).
+    rewrite t_out_load, einserted_load. auto. }
+  constructor; rewrite ?E; try constructor; simpl; try tauto; try lia.
+  - intros th x Hth. destruct (T th Hth) as [-> _]. simpl. tauto.
+  - intros th x Hth. destruct (T th Hth) as [-> _]. simpl. tauto.
+  - intros th x Hth. destruct (T th Hth) as [_ ->]. simpl. tauto.
+Qed.
+
+Lemma ids_inv_step : forall lon loe c i, ids_inv lon loe c -> ids_inv lon loe (step gcode gexec c i).
+Proof.
+  intros lon loe c i H.
+  destruct (nth_error (pool c) i) as [th|] eqn:E; [|rewrite step_none; auto].
+  rewrite (step_unfold _ _ _ _ _ gcode gexec c i th E).
+  destruct (step_thread gcode gexec (sh c) th) as [s' th'] eqn:ST. simpl.
+  pose proof (gstep_effect _ _ _ _ ST) as F.
+  pose proof (nth_error_In _ _ E) as Hin.
+  destruct H as [Hnd Hnb Hed Heb Hna Hea Hei [Hl1 Hl2]].
+  assert (Hl : lon <= g_next_node s' /\ loe <= g_next_edge s').
+  { destruct (se_n _ _ _ _ F) as [[_ ->]|[_ ->]]; destruct (se_e _ _ _ _ F) as [[_ ->]|[_ ->]]; lia. }
+  constructor; simpl; auto.
+  - destruct (se_n _ _ _ _ F) as [[Ei _]|[Ei _]].
+    + rewrite (flat_map_upd_same _ _ _ _ _ _ _ E Ei). auto.
+    + eapply Permutation_NoDup; [symmetry; apply (flat_map_upd_cons _ _ _ _ _ _ _ _ E Ei)|].
+      constructor; auto. intro Hi. apply Hnb in Hi. lia.
+  - intros x Hx. destruct (se_n _ _ _ _ F) as [[Ei ->]|[Ei ->]].
+    + rewrite (flat_map_upd_same _ _ _ _ _ _ _ E Ei) in Hx. auto.
+    + eapply Permutation_in in Hx; [|apply (flat_map_upd_cons _ _ _ _ _ _ _ _ E Ei)].
+      destruct Hx as [<-|Hx]; [lia|]. apply Hnb in Hx. lia.
+  - destruct (se_e _ _ _ _ F) as [[Ei _]|[Ei _]].
+    + rewrite (flat_map_upd_same _ _ _ _ _ _ _ E Ei). auto.
+    + eapply Permutation_NoDup; [symmetry; apply (flat_map_upd_cons _ _ _ _ _ _ _ _ E Ei)|].
+      constructor; auto. intro Hi. apply Heb in Hi. lia.
+  - intros x Hx. destruct (se_e _ _ _ _ F) as [[Ei ->]|[Ei ->]].
+    + rewrite (flat_map_upd_same _ _ _ _ _ _ _ E Ei) in Hx. auto.
+    + eapply Permutation_in in Hx; [|apply (flat_map_upd_cons _ _ _ _ _ _ _ _ E Ei)].
+      destruct Hx as [<-|Hx]; [lia|]. apply Heb in Hx. lia.
+  - intros th0 x Hth0 Hx. apply In_upd_nth in Hth0. destruct Hth0 as [->|Hth0].
+    + destruct (se_nack _ _ _ _ F x Hx) as [Ho|Ho]; auto. apply (se_ndom _ _ _ _ F). eauto.
+    + apply (se_ndom _ _ _ _ F). eauto.
+  - intros th0 x Hth0 Hx. apply In_upd_nth in Hth0. destruct Hth0 as [->|Hth0].
+    + destruct (se_eack _ _ _ _ F x Hx) as [Ho|[Ho|Ho]]; auto; apply (se_edom _ _ _ _ F); eauto.
+    + apply (se_edom _ _ _ _ F). eauto.
+  - intros th0 x Hth0 Hx. apply In_upd_nth in Hth0. destruct Hth0 as [->|Hth0].
+    + destruct (se_eins _ _ _ _ F x Hx) as [Ho|Ho]; auto. apply (se_edom _ _ _ _ F). eauto.
+    + apply (se_edom _ _ _ _ F). eauto.
+Qed.
+
+Lemma ids_unique_l : forall g0 progs sched,
+  let c := grun sched (ginit g0 progs) in
+  NoDup (created_nodes c) /\ NoDup (created_edges c) /\
+  (forall n, In n (created_nodes c) -> g_next_node g0 <= n < g_next_node (sh c) /\ In n (map fst (g_nodes (sh c)))) /\
+  (forall e, In e (created_edges c) -> g_next_edge g0 <= e < g_next_edge (sh c) /\ In e (map fst (g_edges (sh c)))).
+Proof.
+  intros g0 progs sched c.
+  assert (H : ids_inv (g_next_node g0) (g_next_edge g0) c).
+  { apply (run_inv _ _ _ _ _ gcode gexec (ids_inv (g_next_node g0) (g_next_edge g0))).
+    - intros. apply ids_inv_step. auto.
+    - apply ids_inv_init. }
+  destruct H as [Hnd Hnb Hed Heb Hna Hea _ _].
+  unfold created_nodes, created_edges.
+  split; [apply (nodup_flat_map_suffix _ (inflight is_cnode) _ _ Hnd)|].
+  split; [apply (nodup_flat_map_suffix _ (inflight is_cedge) _ _ Hed)|].
+  split.
+  - intros n Hn. apply in_flat_map in Hn. destruct Hn as (th & Hth & Hn). split; [|eapply Hna; eauto].
+    apply Hnb. apply in_flat_map. exists th. split; auto. unfold ids_of. apply in_or_app. auto.
+  - intros e He. apply in_flat_map in He. destruct He as (th & Hth & He). split; [|eapply Hea; eauto].
+    apply Heb. apply in_flat_map. exists th. split; auto. unfold ids_of. apply in_or_app. auto.
+Qed.
